@@ -625,7 +625,7 @@ func (v *Verifier) VerifyFunc(key string) (res *FuncResult) {
 			}
 			ov := v.eval(env, e)
 			if ov.Term != nil {
-				st.FreshList = append(st.FreshList, ov.Term)
+				st.Owned = append(st.Owned, ov.Term)
 				x.note("ASSUMED ownership: only this goroutine closes " + cl.Text[5:] + " (handed out receive-only)")
 			}
 		}
@@ -843,6 +843,12 @@ func (v *Verifier) ghostEffects(fn *ssa.Function) map[string]bool {
 				}
 				if _, isB := c.Value.(*ssa.Builtin); isB {
 					continue
+				}
+				if _, isGo := in.(*ssa.Go); isGo {
+					// the spawn log of the started function advances
+					if gsc := c.StaticCallee(); gsc != nil && !c.IsInvoke() && gsc.Package() != nil && os.Getenv("GOWP_TEST_NO_SPAWN_EFFECT") == "" {
+						out["spawned$"+gsc.RelString(gsc.Package().Pkg)] = true
+					}
 				}
 				sc := c.StaticCallee()
 				if sc == nil || c.IsInvoke() {
